@@ -89,7 +89,7 @@ def build(rng, i, kinds, act):
             w2 = []
     j = lambda l: ",".join(hx(x) for x in l) if l else "-"
     return ("ra u %s %s w1=%s w2=%s" % (hx(stream), act, j(w1), j(w2)),
-            {"n": len(kinds), "first_streamed": str(first), "action": act[:4]})
+            {"n": len(kinds), "first_streamed": str(first), "action": act[:5]})
 
 
 def gen(tier, rng):
@@ -99,7 +99,7 @@ def gen(tier, rng):
         kinds = [rng.choice(KINDS) for _ in range(k)]
         if i % 5 == 0:
             kinds = [rng.choice(["none", "cl1", "cl1023", "cl1024", "cl0", "v10ka"]) for _ in range(k)]      # everything obtainable at once
-        act = rng.choice(["all", "awayR", "awayD", "awayW", "part3", "part1"])
+        act = rng.choice(["all", "allv", "awayR", "awayD", "awayW", "part3", "part1"])
         yield build(rng, i, kinds, act)
     for x in swbase.gen_srs(tier, rng):
         yield x
